@@ -187,10 +187,10 @@ func (fr *Frame) callFn(st *State, site ssa.Instruction, fn *ssa.Function, args 
 		return r
 	}
 	if c := v.lookupContract(fn); c != nil && c.Options["inline"] == "" && !(fr.top && fr.fn == fn) && !v.opaqueNames[fn.Name()] && !v.inlineNames[fn.Name()] {
-		extern := fn.Pkg == nil || !strings.HasPrefix(fn.Pkg.Pkg.Path(), "github.com/consensys/gnark-crypto")
+		extern := pkgOf(fn) == nil || !strings.HasPrefix(pkgOf(fn).Pkg.Path(), "github.com/consensys/gnark-crypto")
 		// an assumed contract of a function of another module is stated in the calling package's own contract file,
 		// at that package's layer: it applies as it stands
-		sameLayer := extern || v.layerKeyOf(fn.Pkg, c) == v.curLayerKey
+		sameLayer := extern || v.layerKeyOf(pkgOf(fn), c) == v.curLayerKey
 		if !sameLayer && v.layerCompatible(fn, c) {
 			// a contract stated at a smaller layer (fewer abstract types, same interpretation of the shared ones)
 			// applies unchanged when the callee's signature does not involve any of the additional abstract types
@@ -1462,7 +1462,7 @@ func (v *Verifier) layerCompatible(fn *ssa.Function, c *Contract) bool {
 				kind = tn
 				continue
 			}
-			t := v.resolveType(fn.Pkg, tn)
+			t := v.resolveType(pkgOf(fn), tn)
 			if t == nil {
 				return false
 			}
